@@ -10,6 +10,9 @@ Writes Gen/Setters.lean:
                         does MCNP_Object.__init__ restart before parsing; does ReadInput.__init__
   * globalsWritten   — every name under a `global` statement in montepy/ (module state written by functions)
   * classInstances   — class-level attributes bound to a call `Name()` (singletons shared by all instances)
+  * processStateCalls — every call / store that sets INTERPRETER-wide state (sys.setrecursionlimit, sys.path, os.chdir,
+                        os.environ, warnings filters outside catch_warnings, locale, numpy / decimal / random settings,
+                        signal, atexit, gc ...), at module level and inside functions
 """
 import ast
 import json
@@ -472,6 +475,145 @@ def runtime_shared_writes():
     return sorted(set(out))
 
 
+# ----------------------------------------------------------------------------- interpreter-wide settings
+# Calls and stores that change state of the INTERPRETER (not of MontePy): what every later call of the process sees.
+PROCESS_SETTERS = {
+    "sys": {"setrecursionlimit", "setswitchinterval", "settrace", "setprofile", "setdlopenflags", "set_int_max_str_digits",
+            "set_asyncgen_hooks", "set_coroutine_origin_tracking_depth", "setcheckinterval"},
+    "os": {"chdir", "fchdir", "putenv", "unsetenv", "umask", "chroot", "setuid", "setgid", "nice", "setpriority"},
+    "warnings": {"simplefilter", "filterwarnings", "resetwarnings"},
+    "locale": {"setlocale"},
+    "decimal": {"setcontext"},
+    "random": {"seed", "setstate"},
+    "numpy": {"seterr", "seterrcall", "set_printoptions", "set_string_function", "setbufsize"},
+    "numpy.random": {"seed", "set_state"},
+    "signal": {"signal", "alarm", "setitimer", "set_wakeup_fd"},
+    "atexit": {"register", "unregister"},
+    "gc": {"disable", "enable", "set_threshold", "set_debug", "freeze"},
+    "threading": {"setprofile", "settrace", "stack_size", "excepthook"},
+    "faulthandler": {"enable", "disable"},
+    "logging": {"basicConfig", "disable", "setLoggerClass", "setLogRecordFactory", "captureWarnings"},
+    "resource": {"setrlimit"},
+    "tempfile": {"tempdir"},
+    "time": {"tzset"},
+    "importlib": {"invalidate_caches", "reload"},
+    "socket": {"setdefaulttimeout"},
+    "multiprocessing": {"set_start_method"},
+    "builtins": set(),
+}
+# attributes of stdlib / numpy modules whose rebinding, item store or mutation is process-wide
+PROCESS_ATTRS = {
+    "sys": {"path", "modules", "meta_path", "path_hooks", "argv", "stdout", "stderr", "stdin", "excepthook", "displayhook",
+            "tracebacklimit", "dont_write_bytecode", "warnoptions", "float_repr_style"},
+    "os": {"environ", "environb", "linesep", "sep"},
+    "warnings": {"filters", "showwarning", "formatwarning"},
+    "tempfile": {"tempdir"},
+    "builtins": None,  # anything stored on builtins
+    "decimal": set(),
+}
+STD_MODULES = set(PROCESS_SETTERS) | set(PROCESS_ATTRS) | {"np"}
+
+
+def process_state_calls():
+    """every place in montepy/ (module level AND function bodies) that sets interpreter-wide state:
+    (file, scope, what, guard).  `scope` is the dotted name of the enclosing function(s) or "<module>" (runs once, at
+    import); `guard` is "catch_warnings" for a warnings.* call lexically inside `with warnings.catch_warnings(...)`
+    (undone at the end of the block), else "".  Found through the module's import aliases (`import sys as s`,
+    `from sys import setrecursionlimit as f`, `import numpy as np`); also `decimal.getcontext().prec = ...` style
+    stores on the current context, and item stores / mutating calls on sys.path, sys.modules, os.environ ..."""
+    out = []
+    for path in py_files():
+        rel = os.path.relpath(path, REPO)
+        tree = parse(path)
+        alias = {}  # local name -> canonical module ("sys", "numpy", "numpy.random" ...)
+        func_alias = {}  # local name -> (module, function) for `from module import function`
+        for node in ast.walk(tree):
+            if isinstance(node, ast.Import):
+                for a in node.names:
+                    if a.asname:
+                        alias[a.asname] = a.name
+                    else:
+                        alias[a.name.split(".")[0]] = a.name.split(".")[0]
+            elif isinstance(node, ast.ImportFrom) and node.module and node.level == 0:
+                for a in node.names:
+                    full = node.module + "." + a.name
+                    if full in PROCESS_SETTERS or a.name in PROCESS_SETTERS and node.module == "":
+                        alias[a.asname or a.name] = full
+                    elif node.module in PROCESS_SETTERS and a.name in PROCESS_SETTERS[node.module]:
+                        func_alias[a.asname or a.name] = (node.module, a.name)
+                    elif node.module in PROCESS_ATTRS and (PROCESS_ATTRS[node.module] is None or a.name in PROCESS_ATTRS[node.module]):
+                        func_alias[a.asname or a.name] = (node.module, a.name)
+
+        def module_of(e):
+            """canonical dotted module an expression denotes, or None"""
+            if isinstance(e, ast.Name):
+                return alias.get(e.id)
+            if isinstance(e, ast.Attribute):
+                base = module_of(e.value)
+                if base is not None and (base + "." + e.attr) in PROCESS_SETTERS:
+                    return base + "." + e.attr
+            return None
+
+        def shared_attr(e):
+            """(module, attribute) when e denotes a process-wide attribute like sys.path / os.environ"""
+            if isinstance(e, ast.Attribute):
+                m = module_of(e.value)
+                if m in PROCESS_ATTRS and (PROCESS_ATTRS[m] is None or e.attr in PROCESS_ATTRS[m]):
+                    return (m, e.attr)
+            if isinstance(e, ast.Name) and e.id in func_alias and func_alias[e.id][0] in PROCESS_ATTRS:
+                return func_alias[e.id]
+            return None
+
+        def visit(node, scope, guard):
+            for child in ast.iter_child_nodes(node):
+                sc, gd = scope, guard
+                if isinstance(child, (ast.FunctionDef, ast.AsyncFunctionDef)):
+                    sc = child.name if scope == "<module>" else scope + "." + child.name
+                elif isinstance(child, ast.ClassDef):
+                    sc = child.name if scope == "<module>" else scope + "." + child.name
+                elif isinstance(child, (ast.With, ast.AsyncWith)):
+                    for item in child.items:
+                        c = item.context_expr
+                        if isinstance(c, ast.Call) and ast.unparse(c.func).split(".")[-1] == "catch_warnings":
+                            gd = "catch_warnings"
+                        if isinstance(c, ast.Call) and ast.unparse(c.func).split(".")[-1] in ("localcontext", "errstate", "printoptions"):
+                            gd = ast.unparse(c.func).split(".")[-1]
+                if isinstance(child, ast.Call):
+                    f = child.func
+                    if isinstance(f, ast.Attribute):
+                        m = module_of(f.value)
+                        if m is not None:
+                            m = "numpy" if m == "np" else m
+                        if m in PROCESS_SETTERS and f.attr in PROCESS_SETTERS[m]:
+                            out.append((rel, sc, f"{m}.{f.attr}", gd if m == "warnings" or gd != "catch_warnings" else ""))
+                        elif f.attr in MUTATORS and shared_attr(f.value):
+                            out.append((rel, sc, "%s.%s.%s" % (*shared_attr(f.value), f.attr), ""))
+                    elif isinstance(f, ast.Name) and f.id in func_alias and func_alias[f.id][0] in PROCESS_SETTERS and func_alias[f.id][1] in PROCESS_SETTERS[func_alias[f.id][0]]:
+                        out.append((rel, sc, "%s.%s" % func_alias[f.id], gd))
+                    elif isinstance(f, ast.Name) and f.id in ("setattr", "delattr") and child.args and module_of(child.args[0]) in STD_MODULES:
+                        out.append((rel, sc, f"{f.id}({module_of(child.args[0])})", ""))
+                targets = []
+                if isinstance(child, ast.Assign):
+                    targets = child.targets
+                elif isinstance(child, (ast.AugAssign, ast.AnnAssign)) and not (isinstance(child, ast.AnnAssign) and child.value is None):
+                    targets = [child.target]
+                elif isinstance(child, ast.Delete):
+                    targets = child.targets
+                for t in targets:
+                    for x in ast.walk(t):
+                        if isinstance(x, ast.Attribute) and isinstance(x.ctx, (ast.Store, ast.Del)):
+                            if shared_attr(x):
+                                out.append((rel, sc, "%s.%s =" % shared_attr(x), ""))
+                            elif isinstance(x.value, ast.Call) and ast.unparse(x.value.func).split(".")[-1] in ("getcontext", "get_printoptions", "geterr"):
+                                out.append((rel, sc, ast.unparse(x.value.func) + "()." + x.attr + " =", gd))
+                        if isinstance(x, ast.Subscript) and isinstance(x.ctx, (ast.Store, ast.Del)) and shared_attr(x.value):
+                            out.append((rel, sc, "%s.%s[...] =" % shared_attr(x.value), ""))
+                visit(child, sc, gd)
+
+        visit(tree, "<module>", "")
+    return sorted(set(out))
+
+
 def generate(write):
     import sly.yacc
 
@@ -546,5 +688,14 @@ def generate(write):
     body += "def runtimeSharedWrites : List (String × String × String) := [\n  " + ",\n  ".join(
         f"({lstr(f)}, {lstr(k)}, {lstr(t)})" for f, k, t in runtime_shared_writes()
     ) + "]\n\n"
+    psc = process_state_calls()
+    body += "/-- every place in montepy/ (module level and function bodies) that sets INTERPRETER-wide state — sys.set*,\n"
+    body += "    os.chdir/os.environ, warnings filters, locale, numpy/decimal/random settings, signal, atexit, gc, sys.path … :\n"
+    body += "    (file, scope (`<module>` = once at import), what, guard (`catch_warnings` = undone at the end of the block)) -/\n"
+    body += "def processStateCalls : List (String × String × String × String) := [" + (
+        "\n  " + ",\n  ".join(f"({lstr(f)}, {lstr(sc)}, {lstr(w)}, {lstr(g)})" for f, sc, w, g in psc) if psc else ""
+    ) + "]\n\n"
+    body += "/-- some function of montepy/ calls sys.setrecursionlimit (the limit is interpreter-wide) -/\n"
+    body += f"def setsRecursionLimit : Bool := {b(any(w == 'sys.setrecursionlimit' for _, _, w, _ in psc))}\n\n"
     body += "end MontePyVerif.Gen.Setters\n"
     write("Setters.lean", body)
